@@ -33,3 +33,4 @@ def run(ctx, rep):
     e2_float.apply(facts, rep, scope, 'C13', floor_scope=150)
     rep.rule('E27', e27_trans.__doc__.strip().split('\n')[0])
     e27_trans.run(facts, rep)
+    e27_trans.check_sub(facts, rep)
